@@ -286,6 +286,28 @@ def accField : St V → String → Option String
   | .cache _ c, "cached" => some (match c with | none => "none" | some l => renderOut (some l))
   | _, _ => none
 
+/-- the state the property statements themselves describe, from the history alone: the alpha-beta tracker's position
+and velocity (C14), the exponential average (C13), the Kalman estimate and error covariance (C06), the running sum and
+the previous sample (C15) -/
+def specGuts (i : Inst) (field : String) (impl : String) : List Clause :=
+  let h := i.hist
+  if h.any (fun l => hasNan l) then [] else
+  let mk (name : String) (e : String) : List Clause := [{ name := name, ok := e == impl, expected := e }]
+  let zs : List (V × V) := h.map (fun (l : List V) => (l.headD 0, l.getD 1 0))
+  match i.st, field with
+  | .alphaBeta a b _, "value" =>
+    mk "C14.state" (renderOpt ((Spec.abRec a b (heads h)).map (fun (p : V × V) => p.1)))
+  | .alphaBeta a b _, "velocity" =>
+    mk "C14.state" (match Spec.abRec a b (heads h) with | some (p : V × V) => p.2.render | none => (0 : V).render)
+  | .ema w _, "mean" => mk "C13.state" (renderOpt (Spec.emaRec w (heads h)))
+  | .kalman c _, "value" =>
+    mk "C06.state" (renderOpt ((Spec.kalmanTextbookRun c zs).map (fun (p : V × V) => p.1)))
+  | .kalman c _, "cov" =>
+    mk "C06.state" (match Spec.kalmanTextbookRun c zs with | some (p : V × V) => p.2.render | none => (0 : V).render)
+  | .integrate _, "value" => mk "C15.state" (Spec.sum (heads h)).render
+  | .differentiate _, "value" => mk "C15.state" (renderOpt (heads h).getLast?)
+  | _, _ => []
+
 /-- C17 / C20 accessor clauses -/
 def specAcc (i : Inst) (which : String) (impl : String) : List Clause :=
   match i.st, which with
@@ -469,7 +491,7 @@ def stepFilterOp (d : DState) (op : String) (toks impl : List String) : Option (
     let id ← id.toNat?
     let inst ← d.get id
     let m ← gutsField inst.st field
-    some (report d op { model := m, impl := implS, kind := kindName inst.st })
+    some (report d op { model := m, impl := implS, kind := kindName inst.st, clauses := specGuts inst field implS })
   | ["cfg", id] => do
     let id ← id.toNat?
     let inst ← d.get id
